@@ -390,6 +390,9 @@ def run(tier, build, replay=None):
         if bad:
             failing += 1
             out.violation(f"{describe(job)}: {bad}", job, tags=tags)
+    # totality of the compute stage (C16_compute_tax_outcome / C16_computed_data_exists) judged on the real code
+    from harness import totality
+    tot = totality.run(out, tier) if not replay else {}
     stale = [j["known_replay"] for j, r in zip(jobs, results) if j.get("known_replay") and r["rc"] == 0]
     if stale:
         out.notes.append("known-finding replays that no longer fail (stale KNOWN_FINDINGS lines): " + ", ".join(stale))
@@ -405,6 +408,7 @@ def run(tier, build, replay=None):
         "traces_validated_against_impl": len(jobs),
         "correspondence_mismatches": mism,
         "composed_model_runs": len(comp_idx), "composed_model_mismatches": comp_mism,
+        "totality_stream": tot,
         "supported_runs": sup, "supported_runs_failing": failing,
         "matrix": {c: {"methods": mm[c]["methods"], "languages": mm[c]["langs"], "default_language": mm[c]["default_lang"]} for c in l6.COUNTRIES},
         "case_distribution": dist, "stale_known_findings": stale,
@@ -414,8 +418,15 @@ def run(tier, build, replay=None):
         "Properties/C16.v (composition) proves that on the facts computed from the rinput this predicate agrees with the four executable "
         "report models (C16_generator_outcome_of_models / _iff; full report: converse only by the 22-holder witness) and that every "
         "configured report is produced under reports_ok_hyps (C16_reports_all_produced, C16_run_total_of_models)",
-        "still assumed there: ComputedData exists for every asset (characterised stage by stage in C06/C08/C10, not composed); "
-        "reports_side_hyps = template large enough for the input-independent cells, open-positions catalogue/template for the language, "
+        "ComputedData exists for every asset: no longer assumed -- C16_run_total_of_models_from_rows takes hypotheses about the input "
+        "(every asset built by the constructors from rows in sheet order, events of one instant in one local year, schedule covering "
+        "every event year, fractions = the matcher's output, -n or no debit overdrawing its account; Proofs/ComputeTotal.v), and "
+        "C16_compute_tax_outcome says compute_tax fails only by exhausted lots or an overdraft without -n; the totality stream "
+        "(harness/totality.py) replays that prediction on the implementation's compute_tax for generated histories x 5 windows x {-n, no -n}, "
+        "incl. a to-date before the first acquisition (average price 0, no division) and the STAKING acquisitions of amount <= 0 that the "
+        "constructor lets through: rp2 rejects them in the matcher stage with RP2ValueError, as the model's matcher does (EValue) -- "
+        "no model discrepancy; they are outside every totality statement",
+        "still assumed: reports_side_hyps = template large enough for the input-independent cells, open-positions catalogue/template for the language, "
         "13-decimal comparisons defined (sizes), every listed asset has a positive balance (C07 reconciliation; F8 breaks it), "
         "tax-report rows constructible (mk_items), single-entry schedule keyed 1970 in the open-positions MODEL (stricter than the code)",
         "the input facts MainRun is given in the CLI correspondence (taxable types in the window, hidden summary year, holders with balance, "
